@@ -117,6 +117,7 @@ func (s *Sim) mutateConf() *ConfSpec {
 				continue
 			}
 			pm := c.effMax(path[:strings.LastIndex(path, ".")])
+			old := q.Max
 			if r.Bool(0.25) {
 				q.Max = nil
 			} else {
@@ -129,6 +130,27 @@ func (s *Sim) mutateConf() *ConfSpec {
 				if len(q.Max) == 0 {
 					q.Max = nil
 				}
+			}
+			if r.Bool(0.3) && old != nil {
+				// the old maximum with one explicit zero added (or taken away): forbidden versus unlimited
+				q.Max = old.Clone()
+				flipped := false
+				for _, t := range resTypes {
+					if v, ok := q.Max[t]; ok && v == 0 {
+						delete(q.Max, t)
+						flipped = true
+						break
+					}
+				}
+				if !flipped {
+					for _, t := range resTypes {
+						if _, ok := q.Max[t]; !ok {
+							q.Max[t] = 0
+							break
+						}
+					}
+				}
+				s.probe("reload_explicit_zero_max")
 			}
 			// guarantees must stay inside
 			for k, v := range q.Guar {
